@@ -958,7 +958,10 @@ var mutations = []mutation{
 		q.Segs = append([]string{}, q.Segs...)
 		id := g.pick("x", "", "not base64!", "QQ", "QR", "_-_-", "====",
 			base64.RawURLEncoding.EncodeToString([]byte("\xff\xfe")), base64.RawURLEncoding.EncodeToString([]byte("é/..")),
-			base64.URLEncoding.EncodeToString([]byte("padded")), base64.RawURLEncoding.EncodeToString([]byte(strings.Repeat("i", 3000))))
+			base64.URLEncoding.EncodeToString([]byte("padded")), base64.RawURLEncoding.EncodeToString([]byte(strings.Repeat("i", 3000))),
+			// well-formed ids whose encoding needs the two characters the URL-safe alphabet replaces
+			base64.RawURLEncoding.EncodeToString([]byte("ab?")), base64.RawURLEncoding.EncodeToString([]byte("ab>")),
+			base64.RawURLEncoding.EncodeToString([]byte("x\ufffd")), base64.RawURLEncoding.EncodeToString([]byte("?>?>?>~~~")))
 		q.Segs[len(q.Segs)-1] = id
 		return true
 	}},
